@@ -36,6 +36,8 @@ type OpC10 struct {
 	// Cancel: the cancel indicator is set on the (API-built) descriptor; Adj: part of the signal time comes from pts_adjustment
 	Cancel bool   `json:"cancel,omitempty"`
 	Adj    uint64 `json:"pts_adjustment,omitempty"`
+	// SigKind: which command the descriptor's signal carries (see DescC19.SigKind)
+	SigKind int `json:"signal_kind,omitempty"`
 }
 
 type CaseC10 struct {
@@ -78,6 +80,7 @@ func genC10Op(t *rapid.T) OpC10 {
 		}
 		o.Wrapped = rapid.IntRange(0, 7).Draw(t, "wrapped") == 0
 		o.Cancel = !o.Decoded && rapid.IntRange(0, 7).Draw(t, "cancel") == 0
+		o.SigKind = rapid.IntRange(0, 3).Draw(t, "signal-kind")
 		if rapid.IntRange(0, 3).Draw(t, "adjusted") == 0 {
 			o.Adj = rapid.SampledFrom([]uint64{1, 500, 1 << 32, 1<<33 - 1}).Draw(t, "adj")
 		}
@@ -104,7 +107,7 @@ type c10Desc struct {
 }
 
 func c10Make(o OpC10, pts uint64, hasPTS bool) (*c10Desc, *hx.Failure) {
-	abs := DescC19{Type: o.Type, Event: o.Event, HasPTS: hasPTS, PTS: pts, Num: o.Num, Exp: o.Exp, Decoded: o.Decoded, Cancel: o.Cancel && !o.Decoded, Adj: o.Adj,
+	abs := DescC19{Type: o.Type, Event: o.Event, HasPTS: hasPTS, PTS: pts, Num: o.Num, Exp: o.Exp, Decoded: o.Decoded, Cancel: o.Cancel && !o.Decoded, Adj: o.Adj, SigKind: o.SigKind,
 		Rest: ref.SpliceDesc{Prog: true, NotRestricted: true, UPID: ref.Hex{}, MID: []ref.SegUPID{}, Comps: []ref.SegOffset{}}}
 	if o.HasSub && (o.Type == 0x34 || o.Type == 0x36) {
 		abs.HasSub, abs.SubNum, abs.SubExp = true, o.SubNum, o.SubExp
@@ -474,7 +477,7 @@ func checkC10(c CaseC10, x *hx.Ctx) (fail *hx.Failure) {
 var propC10 = hx.Register(hx.Prop[CaseC10]{ID: "C10", Gen: genC10, Check: checkC10})
 
 func c10Rule() {
-	hx.Rec("C10").SetRule("cases: histories of 1..40 calls on one tracker: process(new descriptor: type from a 26-type alphabet covering every rule kind plus two types without rules, weighted towards breakaway/resumption/network/unscheduled; event id 1..3; segment number/expected 0..2; sub-segment fields on 0x34/0x36; half of the 0x40 descriptors (and 1 in 16 of the others) carry a stream-switch-shaped multiple-UPID list in one of five shapes with signal id 0..2; one descriptor in eight reaches the tracker inside a decorator type; one API-built descriptor in eight has the cancel indicator set; one signal in four gets part of its time from pts_adjustment; attached to a signal whose PTS repeats the previous one (<= 5 per PTS; API-built ones then share ONE signal object, as the descriptors of one decoded section do) or advances; built through the API or by decoding a reference encoding), process(the same object again immediately), process(descriptor whose signal has no PTS), close(a previously seen descriptor, biased to recent ones, or a fresh one), open(). Oracle: invariants over the observable history by object identity, checked after EVERY call (a second tracker holding one open program sits next to it and must not notice): Open() contains only successfully processed, not yet closed, not discarded, distinct descriptors in opening order; every closed descriptor was open, never closed before, closable under the transcribed rule table and the library's own CanClose (or equal, for explicit close), closed lists last-opened first; immediate re-processing => duplicate error and unchanged Open(); PTS-less => error, nothing closed, unchanged Open(); a recovered panic is a violation. Enumerated: all histories of length <= 4 over 9 descriptor kinds + 2 explicit closes. Non-trivial: the history contains a breakaway and, while it is pending, a descriptor that closes it, an explicit close, a second breakaway, a resumption, or an immediate re-processing.",
+	hx.Rec("C10").SetRule("cases: histories of 1..40 calls on one tracker: process(new descriptor: type from a 26-type alphabet covering every rule kind plus two types without rules, weighted towards breakaway/resumption/network/unscheduled; event id 1..3; segment number/expected 0..2; sub-segment fields on 0x34/0x36; half of the 0x40 descriptors (and 1 in 16 of the others) carry a stream-switch-shaped multiple-UPID list in one of five shapes with signal id 0..2; one descriptor in eight reaches the tracker inside a decorator type; one API-built descriptor in eight has the cancel indicator set; one signal in four gets part of its time from pts_adjustment; attached to a signal whose PTS repeats the previous one (<= 5 per PTS; API-built ones then share ONE signal object, as the descriptors of one decoded section do) or advances; built through the API or by decoding a reference encoding), process(the same object again immediately), process(descriptor whose signal has no PTS: splice_null, immediate or cancelled splice_insert, time-less time_signal), close(a previously seen descriptor, biased to recent ones, or a fresh one), open(). Oracle: invariants over the observable history by object identity, checked after EVERY call (a second tracker holding one open program sits next to it and must not notice): Open() contains only successfully processed, not yet closed, not discarded, distinct descriptors in opening order; every closed descriptor was open, never closed before, closable under the transcribed rule table and the library's own CanClose (or equal, for explicit close), closed lists last-opened first; immediate re-processing => duplicate error and unchanged Open(); PTS-less => error, nothing closed, unchanged Open(); a recovered panic is a violation. Enumerated: all histories of length <= 4 over 9 descriptor kinds + 2 explicit closes. Non-trivial: the history contains a breakaway and, while it is pending, a descriptor that closes it, an explicit close, a second breakaway, a resumption, or an immediate re-processing.",
 		"the same object is re-submitted only immediately (the duplicate ring legitimately forgets after 10 signal times)",
 		"at most 5 descriptors per PTS value (the received list doubles per same-PTS descriptor: a cost issue outside this property)",
 		"a breakaway counts as open although Open() hides it while the blackout lasts; descriptors that vanish from Open() at a resumption count as discarded")
